@@ -25,10 +25,11 @@
 (*   T3  every result's path is the path of its position                   *)
 (*   T4  with --expand each matched parent is replaced by exactly its      *)
 (*       permissible leaf descendants                                      *)
-(* T2/T4 are required outside the named deviation classes (DevClass: where *)
-(* the mirrored code is predicted to leave the declarative definition);    *)
-(* inside them the case is emitted with both the declarative expectation   *)
-(* and the mirror's answer, and the replay on the real code decides.       *)
+(* With the repaired design (PinnedDefects = {}, the default) T2/T4 hold   *)
+(* for every case.  A pinned design leaves the declarative definition in   *)
+(* its deviation class (DevClass): the MC_PathsSearch_pin_* configurations *)
+(* require the theorems there too and must be violated (the check asserts  *)
+(* that); with Exempt = TRUE such cases are emitted with both answers.     *)
 (* Every (document, options, expected positions) case is written for       *)
 (* replay, grouped and chunked.                                            *)
 (***************************************************************************)
@@ -37,7 +38,9 @@ EXTENDS YPathsSearch, YDocGen, Json, CSV, IOUtils, SequencesExt
 CONSTANTS Rich,          \* BOOLEAN: the larger term vocabulary
           OptSample,     \* option combinations per document (48 = the full product)
           ExprCap,       \* expressions listed per class (all are covered by the theorems; these are replayed)
-          Shard, Shards  \* emit only documents of this shard
+          Shard, Shards, \* emit only documents of this shard
+          Exempt         \* TRUE: T2/T4 are not required inside the deviation classes of the pinned designs
+                         \* (PinnedDefects); FALSE with a pinned design = a configuration that must be violated
 
 Spec == GInit /\ [][GNext]_gvars
 
@@ -107,7 +110,7 @@ Core(d, tb, O) ==
   [exp |-> SortIds(ExpectedOf(d, O, mt)), hit |-> SortIds(mt), mir |-> Ids(rs.out),
    cls |-> cls, info |-> InfoCase(d, tb, O), log |-> rs.log,
    ok |-> /\ PathsCanonicalR(d, rs.out)
-          /\ (cls # "" \/ (SoundCompleteR(d, O, rs.out, mt) /\ ExpandsExactlyR(d, O, rs.out, mt)))]
+          /\ ((Exempt /\ cls # "") \/ (SoundCompleteR(d, O, rs.out, mt) /\ ExpandsExactlyR(d, O, rs.out, mt)))]
 
 \* Per sampled option combination the terms fall into classes by the part of their table the search can
 \* consult under these options (Sig: that part written as a number).  One evaluation per class (on the
